@@ -216,11 +216,9 @@ def explore(run):
             shards.append(("U2", a))
     depth = 4 if run.thorough() else 3
     for name in initial_states():
-        # quick: the bare constructor is the same state as the empty simfile (one step is enough to show it works),
-        # corpus states are explored one step less deep; thorough: full depth everywhere
-        d = depth
-        if not run.thorough():
-            d = 1 if name == "SMSimfile()" else (depth - 1 if "shortened" in name else depth)
+        # the bare constructor is the same state as the empty simfile (one step is enough to show it works);
+        # corpus states (large objects) are explored one step less deep than the empty and blank simfiles
+        d = 1 if name == "SMSimfile()" else (depth - 1 if "shortened" in name else depth)
         shards.append(("B", name, None, 0))
         for i in range(len(OPS) + 1):  # + the 'serialize' operation
             shards.append(("B", name, i, d))
@@ -239,7 +237,7 @@ def explore(run):
     run.rule = (
         f"A: every string of length <= {amax} over {SIGMA!r} in {len(CONTEXTS)} contexts (value, ATTACKS, DISPLAYBPM, key, five chart fields, note data, two extra components); "
         + ("U: every BMP code point in six contexts and every pair over a 40-character pool; " if run.thorough() else "U: pairs over part of the awkward-character pool; ")
-        + f"B: breadth-first edit histories of depth <= {depth} (quick: corpus states {depth - 1}, bare constructor 1) over {len(OPS)} operations + serialize from {len(initial_states())} initial states with state matching on the whole object state incl. string identity. "
+        + f"B: breadth-first edit histories of depth <= {depth} (corpus states {depth - 1}, bare constructor 1) over {len(OPS)} operations + serialize from {len(initial_states())} initial states with state matching on the whole object state incl. string identity. "
         "Cases in msdparser's escaping gaps are detected operationally, must match a listed pattern, and are counted. Non-trivial = has a chart, a None or a metacharacter."
     )
     run.assumptions = [
